@@ -16,6 +16,9 @@ pub struct Outcome<K> {
     pub key: K,
     /// short rendering of what was observed at the last step (for the distinct-outcome count)
     pub observed: String,
+    /// optional: which events (by index into the event list) are enabled in the reached state;
+    /// saves replaying a whole history only to find the last event disabled
+    pub enabled: Option<Vec<bool>>,
 }
 
 pub struct Stats {
@@ -37,7 +40,7 @@ pub fn bfs<E: Clone, K: Ord + Clone>(
     mut exec: impl FnMut(&[E], &mut Report, u64) -> Option<Outcome<K>>,
 ) -> Stats {
     let mut seen: BTreeSet<K> = BTreeSet::new();
-    let mut queue: VecDeque<Vec<E>> = VecDeque::new();
+    let mut queue: VecDeque<(Vec<E>, Option<Vec<bool>>)> = VecDeque::new();
     let mut stats = Stats {
         states: 0,
         transitions: 0,
@@ -45,17 +48,24 @@ pub fn bfs<E: Clone, K: Ord + Clone>(
     };
     // the initial state
     let mut ordinal = 0u64;
+    let mut first_enabled = None;
     if let Some(o) = exec(&[], report, 0) {
         seen.insert(o.key);
         stats.states += 1;
+        first_enabled = o.enabled;
     }
-    queue.push_back(vec![]);
+    queue.push_back((vec![], first_enabled));
     let mut prefix_counter = 0u64;
-    while let Some(h) = queue.pop_front() {
+    while let Some((h, enabled)) = queue.pop_front() {
         if h.len() >= max_depth {
             continue;
         }
-        for e in events {
+        for (ei, e) in events.iter().enumerate() {
+            if let Some(en) = &enabled {
+                if !en.get(ei).copied().unwrap_or(true) {
+                    continue;
+                }
+            }
             let mut h2 = h.clone();
             h2.push(e.clone());
             // partition the tree below split_depth among the workers
@@ -79,7 +89,7 @@ pub fn bfs<E: Clone, K: Ord + Clone>(
                 if owned {
                     stats.states += 1;
                 }
-                queue.push_back(h2);
+                queue.push_back((h2, o.enabled));
             }
         }
     }
